@@ -38,14 +38,16 @@ for sid in ids:
             rc, out = sh(f"VERIF_ROOT={snap} ./check {p} quick", cwd=snap)
             viol = [l for l in out.splitlines() if l.startswith("violation:")]
             first = viol[0].split(" message=")[0].replace("violation: ", "") if viol else ""
-            res.append({"property": p, "exit": rc, "first": first, "wall_s": round(time.time() - t0, 1)})
+            import re
+            mm = re.search(r"^(?:runs|scenarios|scripts)=(\d+)", out, re.M)
+            res.append({"property": p, "exit": rc, "first": first, "wall_s": round(time.time() - t0, 1), "runs_until_stop": int(mm.group(1)) if mm else None})
             print(sid, p, rc, first, flush=True)
     finally:
         sh(f"git -C {REPO} checkout -- .")
     meta["regress"] = res
     meta["caught_by"] = [r["property"] for r in res if r["exit"] == 1]
     json.dump(meta, open(f"{d}/meta.json", "w"), indent=1)
-rows = ["| seed | breaks | what the change does | caught by (quick tier) | first check that fired |", "|---|---|---|---|---|"]
+rows = ["| seed | breaks | what the change does | caught by (quick tier) | first check that fired | runs until caught |", "|---|---|---|---|---|---|"]
 for p in sorted(glob.glob("/verif/seeded/*/meta.json")):
     m = json.load(open(p))
     what = m.get("summary") or ""
@@ -53,7 +55,9 @@ for p in sorted(glob.glob("/verif/seeded/*/meta.json")):
     caught = ", ".join(r["property"] for r in reg if r["exit"] == 1) or "**not caught**"
     missed = ", ".join(r["property"] for r in reg if r["exit"] == 0)
     first = next((r["first"] for r in reg if r["exit"] == 1 and r["first"]), "")
-    rows.append(f"| {m['seed_id']} | {m['breaks_property']} | {what} | {caught}" + (f" (not by {missed})" if missed else "") + f" | {first} |")
+    own = next((r for r in reg if r["property"] == m["breaks_property"]), None)
+    runs = own.get("runs_until_stop") if own and own.get("exit") == 1 else None
+    rows.append(f"| {m['seed_id']} | {m['breaks_property']} | {what} | {caught}" + (f" (not by {missed})" if missed else "") + f" | {first} | {runs if runs is not None else ''} |")
 if REPO != "/repo":
     sh(f"git -C /repo worktree remove --force {REPO}; rm -rf {REPO}; git -C /repo worktree prune")
 open("/verif/seeded/TABLE.md", "w").write("\n".join(rows) + "\n")
